@@ -170,3 +170,17 @@ func Discover(roots []string) (repos []Discovered, errClass string) {
 	sort.Slice(repos, func(i, j int) bool { return repos[i].Name < repos[j].Name })
 	return repos, ""
 }
+
+// CollisionKind says where the statement's "two repositories with the same name" arises: "sameroot" if some single root
+// alone already holds the collision (bare x.git next to a work tree x), "crossroot" otherwise, "" if there is none.
+func CollisionKind(roots []string) string {
+	if _, e := Discover(roots); e == "" || e == "duproot" {
+		return ""
+	}
+	for _, r := range roots {
+		if _, e := Discover([]string{r}); e != "" {
+			return "sameroot"
+		}
+	}
+	return "crossroot"
+}
